@@ -353,6 +353,28 @@ class Interp(object):
                     self.hypotheses[txt] != n.polarity:
                 return None
             new = flow.cond_constraints(n.ast, n.polarity, n)
+            if not new and not n.polarity:
+                # the false edge of a conjunction (a <= b <= c, a and b):
+                # not expressible as a conjunction of constraints, but
+                # infeasible when the state entails every conjunct
+                try:
+                    whole = flow.cond_constraints(n.ast, True, n)
+                except AnalysisError:
+                    whole = []
+                _ORD = (ast.Lt, ast.LtE, ast.Gt, ast.GtE, ast.Eq)
+
+                def _all_ord(c_):
+                    return isinstance(c_, ast.Compare) and all(
+                        isinstance(o_, _ORD) for o_ in c_.ops) and not any(
+                        isinstance(x_, ast.Constant) and not isinstance(
+                            x_.value, (int, float))
+                        for x_ in [c_.left] + c_.comparators)
+                conj = (_all_ord(n.ast) and len(n.ast.ops) > 1) or (
+                    isinstance(n.ast, ast.BoolOp) and
+                    isinstance(n.ast.op, ast.And) and all(
+                        _all_ord(v) for v in n.ast.values))
+                if conj and whole and self.entails_state(cons, whole):
+                    return None
             if not new:
                 new = self._disequality(cons, n)
             c = chain(n.ast)
